@@ -198,6 +198,13 @@ def rule_c_d(chk, c, cname):
                 p = Q.escapes(g, [dn], lambda n: n in grp) if label != 'disconnect-fired' else None
                 chk.ob('c', f.ref, f'on hang-up: {label.replace("-", " ")} on every path', bool(grp) and p is None, loc(f, dn.ast),
                        path=pat.path_lines(p, dn) if p else None, discr=f'hangup:{label}')
+    # a descriptor with data still pending is not given up: the hang-up path is taken only without the readable bit
+    for dn in dis_main:
+        q = pat.guarded_by(g, dn, pat.test_edge(lambda tt, pol: pol == 'F' and isinstance(tt, ast.BinOp) and isinstance(tt.op, ast.BitAnd) and
+                                                src(tt.left) == ev and src(tt.right) in IN_ALIASES))
+        chk.ob('c', f.ref, 'the descriptor is given up on hang-up only when the kernel reports nothing left to read (readable data is delivered '
+                           'first, the hang-up is seen again afterwards)', q is None, loc(f, dn.ast), path=pat.path_lines(q) if q else None,
+               discr='hangup-only-when-drained')
     # error clause releases too
     for h in pat.except_nodes(g):
         reg = pat.region(g, 'except', h.ast)
